@@ -29,7 +29,7 @@ import time
 from .. import lib
 from ..exec_tasks import read_logs
 from ..lib import CheckResult, MachineryError, Violation
-from .c65 import model_consts, uniq
+from .c65 import SMALL, model_consts, uniq
 
 PY = sys.executable
 INVS = ["TypeOK", "WorkerBound", "ExactlyOnce", "OrderPreserved", "Reproducible", "SeedsBeforeDispatch", "RngOK", "Progress"]
@@ -40,18 +40,18 @@ def tlc_models(tier, n, wcounts):
     nm = 4 if tier == "quick" else 5
     jobs = {
         "gen": lambda: lib.run_tlc("ExecutorGen", lib.cfg(constants=model_consts([n], wcounts, True, device=True, rounds=1),
-                                                           invariants=INVS, constraints=["Emit"]), lib.workdir("C31", "gen"), timeout=1500),
+                                                           invariants=INVS, constraints=["Emit"]), lib.workdir("C31", "gen"), timeout=1500, workers=SMALL),
         "mc_fifo": lambda: lib.run_tlc("Executor", lib.cfg(constants=model_consts(range(0, nm + 1), [1, 2, 3], True, device=True, rounds=2,
                                                                                   seeds="{0,5,63}"), invariants=INVS),
                                        lib.workdir("C31", "mc_fifo"), timeout=1500),
         "mc_any": lambda: lib.run_tlc("Executor", lib.cfg(constants=model_consts(range(0, nm), [1, 2, 3], False, device=True, rounds=2,
                                                                                  seeds="{0,5}"), invariants=INVS),
-                                      lib.workdir("C31", "mc_any"), timeout=1500),
+                                      lib.workdir("C31", "mc_any"), timeout=1500, workers=SMALL),
     }
     for bug, fifo in BUGS.items():
         jobs["bug:" + bug] = (lambda bug=bug, fifo=fifo: lib.run_tlc("Executor", lib.cfg(constants=model_consts(
             [3], [2], fifo, bug=bug, device=True, rounds=2, seeds="{5}"), invariants=["OrderPreserved", "Reproducible"]),
-            lib.workdir("C31", "bug_" + bug), timeout=600))
+            lib.workdir("C31", "bug_" + bug), timeout=600, workers=2))
     with cf.ThreadPoolExecutor(6) as tp:
         futs = {k: tp.submit(f) for k, f in jobs.items()}
         res = {k: f.result() for k, f in futs.items()}
@@ -73,7 +73,7 @@ def start_drivers(names):
         wd = lib.workdir("C31", f"drv_{name}")
         procs[name] = (subprocess.Popen([PY, "-W", "ignore", "-m", "harness.c31_driver", str(wd / "job.json"), str(wd / "out.jsonl")],
                                         cwd=str(lib.VERIF), stdout=subprocess.DEVNULL, stderr=subprocess.PIPE, text=True,
-                                        start_new_session=True, env=dict(os.environ, VERIF_C31_DIR=str(wd), OMP_NUM_THREADS="1", VERIF_TURNSTILE_WAIT="150")), wd)
+                                        start_new_session=True, env=dict(os.environ, VERIF_C31_DIR=str(wd), OMP_NUM_THREADS="1", VERIF_TURNSTILE_WAIT="150", VERIF_TURNSTILE_GAP="0.05")), wd)
     return procs
 
 
@@ -225,9 +225,16 @@ def _run(tier, rng, procs, proc, thr, seeds, n, t0):
     # ---- negative controls
     neg = []
 
+    def passes(t):       # only a trace that passes can serve as the base of a negative control
+        for r in t["runs"]:
+            done = {e["i"]: e["v"] for e in r["ev"] if e["e"] == "e"}
+            if r["exc"] or not r["flags"] or len(r["out"]) != n or len(r["ev"]) != 2 * n or any(r["out"][k - 1] != done.get(k) for k in range(1, n + 1)):
+                return False
+        return all(t["runs"][a - 1]["out"] == t["runs"][b - 1]["out"] for a, b in t["same"])
+
     def corrupt(f):
         for t in traces[:len(groups)]:
-            if len(t["runs"]) >= 2 and all(len(r["out"]) == n and not r["exc"] for r in t["runs"]) and t["same"]:
+            if len(t["runs"]) >= 2 and t["same"] and passes(t):
                 bad = json.loads(json.dumps(t))
                 f(bad)
                 neg.append(len(traces))
@@ -248,7 +255,7 @@ def _run(tier, rng, procs, proc, thr, seeds, n, t0):
         raise MachineryError(f"verdicts not total: {len(verd)}/{len(traces)}")
     want = ["order", "repro", "flag"]
     gotneg = [verd[i][0] for i in neg]
-    if gotneg != want:
+    if gotneg != want[:len(neg)] or (not neg and any(verd[i][0] == "ok" for i in range(len(groups)))):
         raise MachineryError(f"negative controls: expected verdicts {want}, got {gotneg}")
 
     # ---- verdicts
@@ -275,9 +282,9 @@ def _run(tier, rng, procs, proc, thr, seeds, n, t0):
     # ---- vacuity
     need = {(be, w) for be, w, _, _ in proc + thr if be in ("mp_pool", "cf_procpool", "cf_threadpool") and (w or 1) > 1}
     have = {(k[0], k[1]) for k in realised}
-    if need - have:
+    if need - have and not viol:
         raise MachineryError(f"vacuity: no out-of-order completion realised for {sorted(need - have)}")
-    if fully < 0.9 * nruns:
+    if fully < 0.9 * nruns and not viol:
         raise MachineryError(f"vacuity: only {fully}/{nruns} executions fully observed in the worker logs")
     tl = list(res.values()) + [rt]
     cov = {"states": sum(t.distinct for t in tl), "transitions": sum(t.generated for t in tl),
